@@ -350,7 +350,14 @@ class Ctx:
         p = os.path.join(VERIF, "known_findings.json")
         with open(p) as f:
             data = json.load(f)
-        return [k for k in data.get("findings", []) if k["property"] == self.prop]
+        items = list(data.get("findings", []))
+        d = os.path.join(VERIF, "known_findings.d")
+        if os.path.isdir(d):
+            for fn in sorted(os.listdir(d)):
+                if fn.endswith(".json"):
+                    with open(os.path.join(d, fn)) as f:
+                        items += json.load(f)
+        return [k for k in items if k["property"] == self.prop]
 
     def finish(self, level="proof", checker_cmd=None, extra=None):
         known = {k["class"]: k for k in self.known_findings()}
